@@ -449,6 +449,20 @@ pub fn run_c13(ctx: &Ctx, rep: &mut Report) {
 
 // ---------------------------------------------------------------- C14 -------
 
+/// How many PCM frames more than are written an interrupted encode declares.  Mostly 1000; a
+/// third of the cases declare a total of 2^32 + j blocks (+ 5): the samples still outstanding at the
+/// j-th frame boundary are then 2^32 (+ 5), values whose low 32 bits are zero / smaller than a
+/// block - the complete frames behind that boundary must be recovered all the same.
+fn declared_surplus(cfg: &EncCfg, frames: usize) -> u64 {
+    let bs = cfg.block_size as u64;
+    let j = (frames as u64 / bs.max(1)).min(2);
+    match (frames as u64 + bs) % 6 {
+        0 => (1u64 << 32) + bs * j - frames as u64,
+        1 => (1u64 << 32) + bs * j + 5 - frames as u64,
+        _ => 1000,
+    }
+}
+
 fn encode_unfinalized(cfg: &EncCfg, front: Front, pcm: &[i32], m: &mut Mem) -> Result<(), EncErr> {
     use flac_codec::byteorder::LittleEndian;
     use flac_codec::encode::*;
@@ -458,21 +472,21 @@ fn encode_unfinalized(cfg: &EncCfg, front: Front, pcm: &[i32], m: &mut Mem) -> R
     let ch = cfg.channels as usize;
     match front {
         Front::Sample | Front::ByteBE => {
-            let total = cfg.declare_total.then_some(pcm.len() as u64 + ch as u64 * 1000);
+            let total = cfg.declare_total.then_some(pcm.len() as u64 + ch as u64 * declared_surplus(cfg, pcm.len() / ch));
             let mut w = FlacSampleWriter::new(m, opts, cfg.rate, cfg.bps, cfg.channels, total).map_err(e("new"))?;
             w.write(pcm).map_err(e("write"))?;
             std::mem::forget(w); // crash: no finalize, no Drop
         }
         Front::ByteLE => {
             let bytes = flacref::pcm::to_bytes(pcm, cfg.bps, false);
-            let total = cfg.declare_total.then_some(bytes.len() as u64 + (ch as u64 * cfg.bps.div_ceil(8) as u64) * 1000);
+            let total = cfg.declare_total.then_some(bytes.len() as u64 + (ch as u64 * cfg.bps.div_ceil(8) as u64) * declared_surplus(cfg, pcm.len() / ch));
             let mut w = FlacByteWriter::endian(m, LittleEndian, opts, cfg.rate, cfg.bps, cfg.channels, total).map_err(e("new"))?;
             w.write_all(&bytes).map_err(|e| EncErr { stage: "write", err: format!("Io({e:?})") })?;
             std::mem::forget(w);
         }
         Front::Channel => {
             let frames = pcm.len() / ch;
-            let total = cfg.declare_total.then_some(frames as u64 + 1000);
+            let total = cfg.declare_total.then_some(frames as u64 + declared_surplus(cfg, frames));
             let mut w = FlacChannelWriter::new(m, opts, cfg.rate, cfg.bps, cfg.channels, total).map_err(e("new"))?;
             let chans = flacref::dec::deinterleave(pcm, ch);
             w.write(&chans).map_err(e("write"))?;
@@ -498,6 +512,9 @@ fn c14_case(rep: &mut Report, rng: &mut Rng, thorough: bool) {
             return;
         }
         Ok(Ok(())) => {}
+    }
+    if cfg.declare_total {
+        rep.count("declared_total_class", if declared_surplus(&cfg, pcm.len() / (cfg.channels as usize).max(1)) > 1000 { "2^32 + j blocks (+5)" } else { "written + 1000" });
     }
     let full = m.data.clone();
     // frame table of the pre-finalize stream (provisional header): independent decoder, no total/md5 checks
